@@ -54,6 +54,10 @@ RETS_RICH = ("nd", "nd", "bytes")                     # + with `rich`: ndarray /
 # "ndm" (family nd-replicated only): an ndarray with >= 2 elements for sure -- `==`/`!=` on it are element-wise and its truth value raises
 STARTUP_S = 20.0           # executors forked, data servers listening, every host registered at the Bridge (healthy: 1-3 s, under load up to ~11 s)
 JOB_S = 25.0               # controller.impl.run from its first line to its return, shutdown of the executors included (healthy: 0.3-2 s, under load up to ~8 s)
+STARTUP_LADDER = (STARTUP_S, 40.0, 80.0, 160.0)      # start-up patience per attempt (run_real)
+_LADDER_TXT = "/".join(str(int(x)) for x in STARTUP_LADDER)
+RERUN_JOB_S = 3 * JOB_S     # patience of the runs that decide whether a hang is real: a deadlock does not end after 75 s either
+CALM_WAIT_S = 180.0        # those runs wait for the machine's load to fall below its number of cores, at most this long
 DEADLINE_S = STARTUP_S + JOB_S + 5.0      # outer deadline of the runner subprocess; the two inner ones are enforced by the runner itself
 TRACE_DIR = None           # set in the runner before the executors are forked (inherited by every worker)
 
@@ -774,14 +778,17 @@ def runner_main(case):
     spec = case["spec"]
     TRACE_DIR = case.get("trace")
 
+    startup_s = float(case.get("startup_s") or STARTUP_S)
+    job_s = float(case.get("job_s") or JOB_S)
+
     def _startup_timeout():
         # the cluster did not come up (under heavy machine load a forked helper can deadlock in zmq/fork-with-threads): not a
         # verdict about the job -- `run_real` starts the case again; only a cluster that NEVER comes up is reported
         out["ended"] = "infra"
-        out["error"] = f"start-up: cluster of {spec['hosts']} host(s) x {spec['workers']} worker(s) not up within {STARTUP_S:.0f} s (phase {out['phase']})"
+        out["error"] = f"start-up: cluster of {spec['hosts']} host(s) x {spec['workers']} worker(s) not up within {startup_s:.0f} s (phase {out['phase']})"
         cl._emit(out)
         os._exit(0)
-    wd = threading.Timer(STARTUP_S, _startup_timeout)
+    wd = threading.Timer(startup_s, _startup_timeout)
     wd.daemon = True
     wd.start()
     try:
@@ -803,7 +810,7 @@ def runner_main(case):
             ctx.Process(target=_launch_executor, args=(job, c, spec["workers"], port + 1 + i * 10, h, pidq)).start()
         pids = {}
         for _ in hosts:
-            h, d = pidq.get(timeout=20)
+            h, d = pidq.get(timeout=startup_s)
             pids[h] = d
         # START-UP gate (as in ekw.c05_cluster): every host's data server listens before the job starts, so that a hang seen
         # after the first task body was entered is never excused as the fork-with-threads start-up deadlock
@@ -811,7 +818,7 @@ def runner_main(case):
             addr = d.get("daddress", "")
             if addr.startswith("tcp://"):
                 hp = addr[len("tcp://"):].rsplit(":", 1)
-                tend, ok = time.time() + 15.0, False
+                tend, ok = time.time() + 0.75 * startup_s, False
                 while time.time() < tend and not ok:
                     try:
                         socket.create_connection((hp[0], int(hp[1])), timeout=1.0).close()
@@ -865,12 +872,12 @@ def runner_main(case):
 
         def _job_timeout():
             out["ended"] = "hang"
-            out["error"] = f"controller.impl.run did not return within {JOB_S:.0f} s"
+            out["error"] = f"controller.impl.run did not return within {job_s:.0f} s"
             out["t_run"] = round(time.time() - t1, 2)
             cl._emit(out)
             os._exit(0)
         t1 = time.time()
-        wd2 = threading.Timer(JOB_S, _job_timeout)
+        wd2 = threading.Timer(job_s, _job_timeout)
         wd2.daemon = True
         wd2.start()
     except BaseException as e:
@@ -899,20 +906,51 @@ def runner_main(case):
 _start_lock = threading.Lock()
 
 
-def run_real(spec, deadline_s=DEADLINE_S, settle_s=1.5):
+def _ncpu():
+    try:
+        return len(os.sched_getaffinity(0)) or 1
+    except Exception:
+        return os.cpu_count() or 1
+
+
+def machine_load():
+    """1-minute load average per core available to this process."""
+    try:
+        return os.getloadavg()[0] / _ncpu()
+    except OSError:
+        return 0.0
+
+
+def wait_for_calm(max_s=CALM_WAIT_S):
+    """Re-runs that decide a hang verdict start when the machine is not oversubscribed (the 1-minute load is below the number of
+    cores), or after max_s. Returns the seconds waited."""
+    t = time.time()
+    while machine_load() > 0.9 and time.time() - t < max_s:
+        time.sleep(5.0)
+    return round(time.time() - t, 1)
+
+
+def run_real(spec, deadline_s=DEADLINE_S, settle_s=1.5, job_s=JOB_S):
     """One real run. Returns c05_cluster's observation dict (ended: ok|error|hang) + "trace" (read_trace) + "stats" +
     "job_started" (a task body was entered). Infrastructure trouble raises InfraError."""
     from ekw import c05_cluster as cl
     from ekw.core import InfraError
     obs, startup_fail = None, []
-    for _attempt in range(3):
+    # patience grows with the attempt: a cluster of 11-13 forked workers needs > 20 s of wall clock when the machine is
+    # loaded well beyond its cores (seen: load 20 on 16 cores, three attempts of 20 s each all too short on a healthy tree);
+    # a cluster that really cannot come up does not come up in 160 s either
+    for _attempt, startup_s in enumerate(STARTUP_LADDER):
         tdir = tempfile.mkdtemp(prefix="c01r_")
         try:
             # run ids / port ranges of c05_cluster derive from (pid, millisecond, call counter): starts of concurrent runs are spaced
             _start_lock.acquire()
             threading.Timer(0.12, _start_lock.release).start()
             try:
-                obs = cl.run_case({"spec": spec, "trace": tdir}, deadline_s=deadline_s, settle_s=settle_s, module=MOD)
+                load0 = round(machine_load(), 2)
+                obs = cl.run_case({"spec": spec, "trace": tdir, "startup_s": startup_s, "job_s": job_s},
+                                  deadline_s=deadline_s + (startup_s - STARTUP_S) + (job_s - JOB_S), settle_s=settle_s, module=MOD)
+                obs["load_per_core"] = [load0, round(machine_load(), 2)]
+                obs["job_s"] = job_s
             except (OSError, RuntimeError) as e:          # cannot fork / no free port range
                 raise InfraError(f"real-cluster run could not be started: {type(e).__name__}: {e}")
             tr = read_trace(tdir)
@@ -927,11 +965,11 @@ def run_real(spec, deadline_s=DEADLINE_S, settle_s=1.5):
         if str(obs.get("error") or "").startswith("start-up:"):
             startup_fail.append(f"{obs['error']}; executors that registered their workers: {sorted(tr['execs'])}")
         time.sleep(0.5)
-    if len(startup_fail) == 3:
-        # the cluster never came up, three times in a row: that is a verdict (e.g. address collisions that only some shapes have)
-        obs.update(ended="hang", startup_never=True, error=" || ".join(startup_fail), startup_retries=3)
+    if len(startup_fail) == len(STARTUP_LADDER):
+        # the cluster never came up, four times in a row with growing patience: that is a verdict (e.g. address collisions that only some shapes have)
+        obs.update(ended="hang", startup_never=True, error=" || ".join(startup_fail), startup_retries=len(startup_fail))
         return obs
-    raise InfraError(f"real-cluster run could not be set up (3 attempts): {obs.get('error')}")
+    raise InfraError(f"real-cluster run could not be set up ({len(STARTUP_LADDER)} attempts): {obs.get('error')}")
 
 
 def stats_of(tr):
@@ -1098,9 +1136,9 @@ def judge(spec, ref, obs):
     shape = f"{spec['hosts']} host(s) x {spec['workers']} worker(s)" + (f", {spec['gpus']} GPU(s) per host" if spec.get("gpus") is not None else "")
     v = []
     if obs.get("startup_never"):
-        v.append(("real-cluster-hang", f"the cluster of {shape} did not come up in 3 attempts of {STARTUP_S:.0f} s each: {obs.get('error')}"))
+        v.append(("real-cluster-hang", f"the cluster of {shape} did not come up in {len(STARTUP_LADDER)} attempts of {_LADDER_TXT} s: {obs.get('error')}"))
     elif obs["ended"] == "hang":
-        v.append(("real-cluster-hang", f"run on {shape}: controller.impl.run did not return within {JOB_S:.0f} s of its start (cluster start-up took {obs.get('t_setup')} s; {_progress(spec, obs)})"))
+        v.append(("real-cluster-hang", f"run on {shape}: controller.impl.run did not return within {obs.get('job_s') or JOB_S:.0f} s of its start (cluster start-up took {obs.get('t_setup')} s; {_progress(spec, obs)})"))
     elif obs["ended"] == "error":
         v.append(("real-cluster-error", f"run on {shape} raised {obs.get('error')} although no task fails under sequential evaluation ({_progress(spec, obs)})"))
     else:
@@ -1116,7 +1154,7 @@ def judge(spec, ref, obs):
 
 
 def summary(obs):
-    return dict({k: obs.get(k) for k in ("ended", "error", "t_setup", "t_run", "wall", "job_started", "alive_at_deadline", "stats", "trace_info")},
+    return dict({k: obs.get(k) for k in ("ended", "error", "t_setup", "t_run", "wall", "job_started", "alive_at_deadline", "stats", "trace_info", "load_per_core", "job_s")},
                 delivered=sorted(((obs.get("outputs") or {}).get("values") or {})))
 
 
@@ -1126,7 +1164,8 @@ def check_case(spec, ref=None, deadline_s=DEADLINE_S, on_first=None):
       * shows again on an immediate re-run of the same case                     -> reported;
       * does not show again, but the job HAD STARTED in the failing run (the cluster had passed the start-up gate and a
         task body had been entered)                                             -> reported with "reproduced": false
-                                                                                    and both runs in the replay;
+                                                                                    and both runs in the replay -- unless the
+        machine was oversubscribed around the first run (1-minute load > cores) and a third run is clean too: dropped, counted;
       * does not show again and no task body had been entered                   -> dropped (counted): the fork-with-threads
         deadlock at cluster start-up under heavy machine load is outside C01.
     `on_first(kinds)` (used by Batch): called with the hang / error kinds of the first run; when it returns a number n > 0, n OTHER
@@ -1140,19 +1179,37 @@ def check_case(spec, ref=None, deadline_s=DEADLINE_S, on_first=None):
     if bad and obs.get("startup_never"):
         for x in bad:
             x["sig"] = {"kind": x["kind"], "where": "start-up"}
-    elif bad and on_first is not None and (n_other := on_first({x["kind"] for x in bad})):
+    elif bad and on_first is not None and (n_other := on_first({x["kind"] for x in bad})) and max(obs.get("load_per_core") or [0.0]) <= 1.0:
+        # (on an oversubscribed machine other cases' first runs prove nothing: the deciding runs below are made)
         for x in bad:
             x["what"] += f" [not run again: {n_other} other case(s) of this batch showed the same verdict in their first run]"
     elif bad:
-        obs2 = run_real(spec, deadline_s)
+        # the deciding runs: on a calm machine (or after CALM_WAIT_S) and with three times the patience -- a starved process is
+        # slow, a deadlocked one stays deadlocked
+        waited = wait_for_calm()
+        obs2 = run_real(spec, deadline_s, job_s=RERUN_JOB_S)
         kinds2 = {k for k, _ in judge(spec, ref, obs2)}
         runs = [summary(obs), summary(obs2)]
         obs["second_run"] = runs[1]
+        obs["calm_wait_s"] = waited
+        loaded = max(obs.get("load_per_core") or [0.0]) > 1.0       # more runnable processes than cores around the FIRST run
+        kinds3 = None
         keep = []
         for x in vs:
             if x not in bad or x["kind"] in kinds2:
                 keep.append(x)
             elif obs.get("job_started"):
+                # seen once after the job had started, not seen on the patient re-run. On a machine that was not oversubscribed
+                # that is reported as it stands; on an oversubscribed one (messages between local processes are sent with a
+                # 1 s linger and no acknowledgement: comms.callback) a third run decides
+                if loaded and kinds3 is None:
+                    wait_for_calm()
+                    obs3 = run_real(spec, deadline_s, job_s=RERUN_JOB_S)
+                    kinds3 = {k for k, _ in judge(spec, ref, obs3)}
+                    runs.append(summary(obs3))
+                if loaded and x["kind"] not in kinds3:
+                    obs.setdefault("dropped_under_load", []).append(x["kind"])
+                    continue
                 x["sig"] = {"kind": x["kind"], "reproduced": False}
                 x["what"] += f" [the job HAD started; the immediate re-run of the same case ended {runs[1]['ended']}" + (f" ({runs[1]['error']})" if runs[1].get("error") else "") + "]"
                 keep.append(x)
@@ -1285,6 +1342,9 @@ def _account(ctx, seed, spec, res):
         ctx.count("real:confirm-runs")
     if obs.get("startup_retries"):
         ctx.count("real:start-up-retries", obs["startup_retries"])
+    for k in obs.get("dropped_under_load", []):
+        ctx.count("real:hang-under-load-not-reproduced-" + k)
+        ctx.notes.append(f"real-cluster {k} after the job had started, on an oversubscribed machine (load per core {obs.get('load_per_core')}), not seen in two patient re-runs on the calmer machine: dropped, seed {seed}")
     for k in obs.get("dropped", []):
         ctx.count("real:flaky-startup-" + k)
         ctx.notes.append(f"real-cluster {k} before any task body was entered, not reproduced on re-run (start-up flake, ignored), seed {seed}")
